@@ -174,6 +174,9 @@ impl Config {
             State::Grep(GrepType::Ripgrep, _, _, _) => &self.classic_grep_header_style,
             State::HunkHeader(_, _, _, _) => &self.hunk_header_style,
             State::SubmoduleLog => &self.file_style,
+            // These two states can be current when a file header line is examined
+            // (`diff -u`-style input, see `test_pending_line_with_diff_name`).
+            State::SubmoduleShort(_) | State::MergeConflict(_, _) => &self.file_style,
             _ => delta_unreachable("Unreachable code reached in get_style."),
         }
     }
